@@ -4,6 +4,7 @@ import (
 	"bytes"
 	"fmt"
 	"reflect"
+	"sync"
 	"testing"
 	"time"
 
@@ -537,6 +538,7 @@ func (x *c15) service(op C15Op) error {
 	var res rhpx.Result
 	var root types.Hash256
 	var verifyServe func() error
+	var storedRoot *types.Hash256 // write: the root the sector must be stored under
 	switch op.Op {
 	case "read":
 		root = rootOf(op.Sector)
@@ -586,11 +588,13 @@ func (x *c15) service(op C15Op) error {
 		}
 		r := x.R.Write(x.Prices, token, data, length, script)
 		res = r.Result
+		// a paid write stores exactly the bytes sent, zero padded: the root the
+		// host stores them under (and answers) is core's root of that sector
+		wantRoot := paddedRoot(data)
+		storedRoot = &wantRoot
 		verifyServe = func() error {
-			for _, c := range x.H.Log.Since(logFrom) {
-				if c.Op == "StoreSector" && !c.Failed() && c.Root != r.Root {
-					return fmt.Errorf("%s: stored under root %v, answered %v", what, c.Root, r.Root)
-				}
+			if r.Root != wantRoot {
+				return fmt.Errorf("%s: the host answered root %v, the %d bytes sent (zero padded) hash to %v: something else was stored and paid for", what, r.Root, length, wantRoot)
 			}
 			return nil
 		}
@@ -618,6 +622,9 @@ func (x *c15) service(op C15Op) error {
 				return fmt.Errorf("%s: more than one sector operation", what)
 			}
 			serveSeq = c.Seq
+			if c.Op == "StoreSector" && !c.Failed() && storedRoot != nil && c.Root != *storedRoot {
+				return fmt.Errorf("%s: the host stored a sector under root %v, the bytes sent (zero padded) hash to %v", what, c.Root, *storedRoot)
+			}
 			if c.Op == "ReadSector" && (op.Op == "write" || c.Root != root) {
 				return fmt.Errorf("%s: host read sector %v", what, c.Root)
 			}
@@ -937,6 +944,24 @@ func runC15(c C15Case, cs *kit.CaseStats) error {
 		cs.NonTrivial()
 	}
 	return nil
+}
+
+var paddedRootCache sync.Map
+
+// paddedRoot is core's sector root of data zero padded to a full sector.
+func paddedRoot(data []byte) types.Hash256 {
+	key := string(data)
+	if len(data) > 256 {
+		key = fmt.Sprintf("%d/%x/%x", len(data), data[:64], data[len(data)-64:])
+	}
+	if v, ok := paddedRootCache.Load(key); ok {
+		return v.(types.Hash256)
+	}
+	sector := new([proto4.SectorSize]byte)
+	copy(sector[:], data)
+	root := proto4.SectorRoot(sector)
+	paddedRootCache.Store(key, root)
+	return root
 }
 
 // ---------------------------------------------------------------- generator
